@@ -27,6 +27,8 @@ DISTS = {
     "triangle_right": (("Triangle", 2.75), -1.0, 3.0),
     "normal_inf": (("Normal", 0.2, 1.0), -INF, INF),
     "normal_box": (("Normal", 0.0, 2.0), -12.0, 12.0),
+    # a finite support that cuts a noticeable part of the mass (about 2.5 %); without boundary points the rule renormalises to 1
+    "normal_cut": (("Normal", 0.0, 1.0), -2.2, 2.3),
     # degenerate triangle: peak at the lower end of the support (peak at the UPPER end is not usable in the pinned environment:
     # chaospy's Triangle(lower, midpoint=upper, upper) returns cdf(upper) = 0)
     "triangle_peak_at_a": (("Triangle", -1.0), -1.0, 3.0),
@@ -261,8 +263,10 @@ def main(ctx):
     cases = []
     for name in DISTS:
         for bd in (True, False):
-            if name == "normal_inf" and bd:
+            if name in ("normal_inf", "normal_far_mean") and bd:
                 continue     # boundary points at +-infinity are not grid points
+            if name == "normal_cut" and bd:
+                continue     # with boundary points the rule integrates the untruncated density over the box (mass 0.975, by design)
             cases.append({"config": {"kind": "tree", "dist": name, "boundary": bd, "shape": ["depth", 3 if q else 4]}})
             for side in ("left", "right"):
                 cases.append({"config": {"kind": "tree", "dist": name, "boundary": bd, "shape": ["chain", side, 6 if q else 9]}})
